@@ -2,6 +2,7 @@ package harness
 
 import (
 	"fmt"
+	"os"
 	"runtime"
 	"strings"
 	"sync"
@@ -42,7 +43,14 @@ func (c *C14Case) Describe() string {
 }
 
 func genC14(t *rapid.T) interface{} {
-	c := &C14Case{Grammar: rapid.SampledFrom([]string{"arith", "arith", "json", "json", "lr", "lits", "generated", "idents", "idents", "toks", "toks", "nomatch"}).Draw(t, "grammar")}
+	c := &C14Case{Grammar: rapid.SampledFrom([]string{"arith", "arith", "json", "json", "lr", "lits", "generated", "idents", "idents", "toks", "toks", "nomatch", "seqshare"}).Draw(t, "grammar")}
+	if thorough() && os.Getenv("VERIF_C14_DEEP") != "" && rapid.IntRange(0, 69).Draw(t, "deep") == 33 {
+		// a nesting depth of tens of thousands in a few goroutines at once (whatever a parser value
+		// counts while it runs is then counted for all of them together). Opt-in only (VERIF_C14_DEEP,
+		// thorough tier): one such case costs minutes under the race detector - with one case in 70 the
+		// quick tier went from 30 s to its time-out - so no registered command draws it.
+		c.Grammar = "deep"
+	}
 	c.Procs = rapid.SampledFrom([]int{2, 4, 16}).Draw(t, "procs")
 	c.Construct = rapid.Bool().Draw(t, "construct")
 	c.Pattern = rapid.IntRange(0, 1<<30).Draw(t, "pattern")
@@ -77,6 +85,11 @@ func genC14(t *rapid.T) interface{} {
 			in = genJSON(t, rapid.IntRange(0, 3).Draw(t, "d"))
 		case "nomatch":
 			return rapid.SampledFrom([]string{"x", "x,x", "", ",x", "y"}).Draw(t, "nomatchIn")
+		case "seqshare":
+			return rapid.SampledFrom([]string{"a", "ab", "ab", "b", "", "abx"}).Draw(t, "seqshareIn")
+		case "deep":
+			d := rapid.SampledFrom([]int{30000, 34000, 36000, 40000}).Draw(t, "deepDepth")
+			return strings.Repeat("(", d) + "x" + strings.Repeat(")", d)
 		case "lr":
 			in = rapid.SampledFrom([]string{"a", "ab", "abbbb", "abbbbbbbbb", "b", "abc", "", "abbx"}).Draw(t, "lr")
 			if rapid.IntRange(0, 3).Draw(t, "longlr") == 0 {
@@ -120,8 +133,14 @@ func genC14(t *rapid.T) interface{} {
 	if thorough() {
 		n = rapid.IntRange(2, 16).Draw(t, "goroutines16")
 	}
+	if c.Grammar == "deep" {
+		n = rapid.IntRange(2, 3).Draw(t, "deepGoroutines")
+	}
 	for g := 0; g < n; g++ {
 		k := rapid.IntRange(1, 4).Draw(t, "njobs")
+		if c.Grammar == "deep" {
+			k = 1
+		}
 		var jobs []string
 		for j := 0; j < k; j++ {
 			in := input()
@@ -149,6 +168,13 @@ func c14Parser(c *C14Case) parsley.Parser {
 		return arithParser()
 	case "json":
 		return combinator.Sentence(text.Trim(json.NewParser()))
+	case "seqshare":
+		root, _ := c14SeqShare()
+		return root
+	case "deep":
+		var e parser.Func
+		e = combinator.Any(combinator.SeqOf(terminal.Rune('('), &e, terminal.Rune(')')).Bind(interpreter.Select(1)), terminal.Rune('x'))
+		return combinator.Sentence(&e)
 	case "nomatch":
 		// a rule that is left-recursive only: it returns neither a result nor an error, and Parse
 		// then reports that nothing matched, at the start of the run's own file
@@ -175,6 +201,35 @@ func c14Parser(c *C14Case) parsley.Parser {
 		return combinator.Sentence(combinator.Many(text.Trim(lit)).Bind(concatInterpAny()))
 	}
 	return combinator.Sentence(Build(c.G, BuildOpts{Interp: concatInterp(true)}).NT[0])
+}
+
+// c14SeqShare: a grammar and one of its parts (a sequence parser value). Other grammars are built
+// around the part while the first grammar is in use; building a grammar around a parser value
+// does not change what that value does in the grammars it already belongs to.
+func c14SeqShare() (root parsley.Parser, part parsley.Parser) {
+	pair := combinator.SeqTry(terminal.Rune('a'), terminal.Rune('b')).Bind(concatInterpAny())
+	return combinator.Sentence(combinator.Any(pair, terminal.Rune('b'))), pair
+}
+
+// c14Around builds some other grammar around a parser value that already belongs to a grammar.
+func c14Around(part parsley.Parser, k int) parsley.Parser {
+	switch k % 8 {
+	case 0:
+		return combinator.Sentence(combinator.Single(part))
+	case 1:
+		return combinator.Sentence(combinator.Optional(part))
+	case 2:
+		return combinator.Sentence(combinator.Memoize(part))
+	case 3:
+		return combinator.Sentence(combinator.Many(part).Bind(concatInterpAny()))
+	case 4:
+		return combinator.Sentence(text.Trim(part))
+	case 5:
+		return combinator.Sentence(combinator.SuppressError(part))
+	case 6:
+		return combinator.Sentence(combinator.SepBy(part, terminal.Rune(',')).Bind(concatInterpAny()))
+	}
+	return combinator.Sentence(combinator.Choice(combinator.Single(part), terminal.Rune('x')))
 }
 
 // concatInterpAny evaluates every child and prints the values.
@@ -315,6 +370,22 @@ func checkC14(ci interface{}, st *Stats) error {
 		}
 	}
 	p := c14Parser(c)
+	var part parsley.Parser
+	before := map[string]string{}
+	if c.Grammar == "seqshare" {
+		// (this grammar's answers are also taken before anything else happens: they must be the same
+		// after other grammars have been built around one of its parts)
+		p, part = c14SeqShare()
+		for _, jobs := range c.Jobs {
+			for _, in := range jobs {
+				before[in] = runAlone(p, in, 0)
+			}
+		}
+	}
+	rounds := 3
+	if c.Grammar == "deep" {
+		rounds = 1
+	}
 	if c.Procs > 0 {
 		defer runtime.GOMAXPROCS(runtime.GOMAXPROCS(c.Procs))
 	}
@@ -362,8 +433,12 @@ func checkC14(ci interface{}, st *Stats) error {
 				}
 			}()
 			<-start
-			for round := 0; round < 3; round++ {
+			for round := 0; round < rounds; round++ {
 				for ji, in := range jobs {
+					if part != nil {
+						// another grammar around a part of the shared one, constructed and used right here
+						runOne(c14Around(part, g+round+ji), in)
+					}
 					got, tree := runOneTreeAt(p, "f", in, preOf(g), kw(g)...)
 					results[g] = append(results[g], obs{g, in, got, false, tree, renderFull(tree, 1)})
 					if c.Construct {
@@ -399,6 +474,11 @@ func checkC14(ci interface{}, st *Stats) error {
 			if now := renderFull(o.tree, 1); now != o.repr {
 				return fmt.Errorf("goroutine %d, input %q: the tree of this run was changed by another run:\n was %s\n now %s", g, o.in, o.repr, now)
 			}
+		}
+	}
+	for in, was := range before {
+		if now := runAlone(p, in, 0); now != was {
+			return fmt.Errorf("input %q: the grammar gave %s before other grammars were built around one of its parts, and gives %s afterwards", in, was, now)
 		}
 	}
 	failingG := 0
